@@ -28,6 +28,8 @@ def _lemma_term(ex, lem, int_mode=True):
     ev = Eval(ex, st, True, bound)
     body = ev.boolean(ex.parse_clause(lem.body))
     rng = [z3.And(c >= 0, c < RANGE) for c in bvs if c.sort() == z3.IntSort()] if lem.kind == "bv64" else []
+    if lem.kind == "induction":
+        rng = [bound[lem.on].z >= 0]
     full = z3.Implies(z3.And(*rng), body) if rng else body
     pats = [Eval(ex, st, True, bound).expr(ex.parse_clause(p)).z for p in lem.trig]
     if len(pats) > 1:
@@ -62,8 +64,63 @@ def pow2_axioms():
             z3.ForAll([k], z3.Implies(k >= 0, POW2(k) >= 1), patterns=[POW2(k)])]
 
 
+def recfn_axioms(ex, groups):
+    from .expr import ufun
+    from .symexec import State
+    out = []
+    for name, rf in ex.reg.recfns.items():
+        if rf["group"] not in groups:
+            continue
+        ats = [parse_type(t, ex.generics) for _, t in rf["params"]]
+        rt = parse_type(rf["ret"], ex.generics)
+        f = ufun(name, [sort_of(t) for t in ats], sort_of(rt))
+        cs = [z3.Const(f"{p}!rec_{name}", sort_of(t)) for (p, _), t in zip(rf["params"], ats)]
+        bound = {p: V(t, c) for (p, _), t, c in zip(rf["params"], ats, cs)}
+        on = bound[rf["on"]].z
+        from .expr import coerce_to
+        base = coerce_to(Eval(ex, State(), True, bound).expr(ex.parse_clause(rf["base"])), rt)
+        step = coerce_to(Eval(ex, State(), True, bound).expr(ex.parse_clause(rf["step"])), rt)
+        out.append(z3.ForAll(cs, z3.Implies(on <= 0, f(*cs) == base.z), patterns=[f(*cs)]))
+        out.append(z3.ForAll(cs, z3.Implies(on > 0, f(*cs) == step.z), patterns=[f(*cs)]))
+    return out
+
+
+def induction_obligations(ex, lem):
+    """(base, step) formulas for an induction lemma over lem.on"""
+    from .symexec import State
+    consts = {}
+    for v in lem.vars:
+        t = parse_type(lem.var_sorts.get(v, "int"), ex.generics)
+        consts[v] = V(t, z3.Const(f"{v}!ind_{lem.name}", sort_of(t)))
+    k = consts[lem.on].z
+
+    def body(kval):
+        b = dict(consts)
+        b[lem.on] = V(INT, kval)
+        return Eval(ex, State(), True, b).boolean(ex.parse_clause(lem.body))
+
+    return body(z3.IntVal(0)), z3.Implies(z3.And(k >= 0, body(k)), body(k + 1))
+
+
+def prove_induction(ex, lem, timeout_ms=20000):
+    hyps = recfn_axioms(ex, [lem.group] + list(lem.uses)) + deffn_axioms(ex, [lem.group] + list(lem.uses))
+    for other in ex.reg.lemmas.values():
+        if other.name != lem.name and (other.name in lem.uses):
+            hyps.append(_lemma_term(ex, other))
+    base, step = induction_obligations(ex, lem)
+    res = []
+    for nm, goal in (("base", base), ("step", step)):
+        s = z3.Solver()
+        s.set("timeout", timeout_ms)
+        s.add(*hyps)
+        s.add(z3.Not(goal))
+        r = s.check()
+        res.append((nm, str(r), str(s.model())[:600] if r == z3.sat else ""))
+    return res
+
+
 def lemma_formulas(ex, groups):
-    out = deffn_axioms(ex, groups)
+    out = deffn_axioms(ex, groups) + recfn_axioms(ex, groups)
     if "pow2" in groups:
         out.extend(pow2_axioms())
     for lem in ex.reg.lemmas.values():
